@@ -25,6 +25,12 @@ CLAIMED = {
     'C05': dict(ref='5 (C05)', tech=TECH, note=NOTE + ' Callee summaries (restriction halves exactly the pattern directions; residual/smoothing do not touch cycling state) are assumed here and discharged under C04/C01.',
                 text='Proof over all paths of _current_sc_dir/_current_lr_dir, _max_level (loop invariant with the spec function H), parameter '
                      'set-up, and multigrid (recursion invariant, V/W/F child-call structure, one generic fine-grid cycle): unbounded in shape, level and limits.'),
+    'C14': dict(ref='5 (C14)', tech=TECH + '; exp/log identities of the Map classes decided by computer algebra (sympy) on terms read from the source',
+                note=NOTE + ' sympy simplification trusted for the transcendental identities (numeric 50-digit cross-check); IEEE facts about NaN comparisons are axioms.',
+                text='For each of the six mappings, read from the current source: forward is the documented map, backward o forward = id on positive conductivities, '
+                     'forward o backward = id, derivative_chain factor = d backward/dp (for all values, symbolic). Model validation: on every path of the validator, the five setters, '
+                     '_init_parameter and the constructor a stored property implies all(conductivity > 0) and all finite under IEEE semantics; None-properties cannot be assigned. '
+                     'Coefficients depend on the property only through backward (C02 VolumeModel obligations re-run here).'),
 }
 NOT_APPLICABLE = {
     'C06': 'grid-independent convergence rate: empirical/spectral statement about floating-point iteration counts; no per-call contract expresses or decides it',
